@@ -136,6 +136,36 @@ def r_hasattr(eng, args, kw, st, sink, n):
         raise Unsupported(f"hasattr on {t}", n)
 
 
+def r_getattr(eng, args, kw, st, sink, n):
+    """getattr(obj, "name"[, default]) with a literal name on a modelled object: the attribute when the class
+    declares it (the default is then never used), the default when it does not"""
+    if len(args) not in (2, 3):
+        raise Unsupported("getattr arity", n)
+    x, name = args[0], args[1]
+    nm = name.z if name.ty is T.PY else (name.z.as_string() if z3.is_string_value(name.z) else None)
+    if not isinstance(nm, str):
+        raise Unsupported("getattr with symbolic name", n)
+    t = x.ty
+    if t is T.PY:
+        if hasattr(x.z, nm):
+            yield st, eng.lift(getattr(x.z, nm))
+        elif len(args) == 3:
+            yield st, args[2]
+        else:
+            sink.append((st, Exc(AttributeError)))
+        return
+    if isinstance(t, T.ObjT) and (t.cls, nm) not in eng.hasattr_obj:
+        declared = eng.find_field(t.cls, nm) is not None or eng.method_key(t.cls, nm) is not None
+        if declared:
+            node = ast.copy_location(ast.Attribute(value=n.args[0], attr=nm, ctx=ast.Load()), n)
+            yield from eng.get_attr(x, nm, st, sink, node)
+            return
+        if len(args) == 3:
+            yield st, args[2]
+            return
+    raise Unsupported(f"getattr on {t}", n)
+
+
 def as_listv(eng, x, st, n, want=None):
     t = x.ty
     if isinstance(t, T.ListV):
@@ -613,6 +643,7 @@ def install(eng):
     R[len] = r_len
     R[isinstance] = r_isinstance
     R[hasattr] = r_hasattr
+    R[getattr] = r_getattr
     R[sorted] = r_sorted
     R[list] = r_list
     R[set] = r_set
